@@ -91,6 +91,21 @@ def run(v, tier, seed, replay=None):
                 c['level'], c['cs'], c['restore'], len(want), len(got) if got is not None else i[:60],
                 ('; first difference at object %d' % k) if got is not None and len(got) == len(want) else ''),
                 {'write_case': c['line'][:3000], 'file_hex': r['data'].hex()[:6000], 'implementation': i[:600]})
+    # configurations changed AFTER open(out): the container size raised above / lowered below the stream's buffer in mid-session
+    from .. import sessrun
+    plain, _sched = sessrun.harnesses()
+    late = [(0x20000, 0x40000, 0, 14000), (0x20000, 0x28000, 3000, 9000), (4096, 8192, 500, 1500), (512, 4096, 10, 2000), (0x8000, 300, 2000, 2000)]
+    if tier != 'quick':
+        late += [(0x20000, 0x80000, 100, 30000), (64, 300000, 500, 9000), (0x40000, 0x20000, 9000, 9000)]
+    lo = sessrun.run_impl(plain, ['FC %d %d %d %d' % t for t in late])
+    for t, o in zip(late, lo):
+        if o == 'SKIPPED':
+            continue
+        nfile += 1
+        if o != 'FC ok n=%d inorder=1' % (t[2] + t[3]):
+            fbad += 1
+            v.violation('C01:file:late-config', 'write-then-read with the container size changed from %d to %d after %d of %d objects (after open): %s' % (t[0], t[1], t[2], t[2] + t[3], o[:100]),
+                        {'scenario': 'FC %d %d %d %d' % t, 'implementation': o[:200], 'expected': 'all %d CanMessage objects back, ids in order' % (t[2] + t[3])})
     ndis_f = sum(1 for r in fulls if not filerun.fr_agree(r['model'], r['impl']))
     if ndis_f and not fbad:
         r = next(r for r in fulls if not filerun.fr_agree(r['model'], r['impl']))
